@@ -321,3 +321,34 @@ func buildSource(shape string, seed int64) *source {
 	s.digest, _ = digestOf(s.disk, s.root, s.isState)
 	return s
 }
+
+// ---------------------------------------------------------------- exported view (used by drive/triesyncnet)
+
+// Source is the exported name of a built source.
+type Source = source
+
+// BuildSource builds the source of a shape for a seed.
+func BuildSource(shape string, seed int64) *Source { return buildSource(shape, seed) }
+
+// DigestOf walks db and returns (content digest, "ok" or the error of the integrity walk).
+func DigestOf(db *youdb.MemDatabase, root common.Hash, isState bool) (string, string) {
+	return digestOf(db, root, isState)
+}
+
+func (s *source) Shape() string          { return s.shape }
+func (s *source) IsState() bool          { return s.isState }
+func (s *source) Root() common.Hash      { return s.root }
+func (s *source) Size() int              { return len(s.hashes) }
+func (s *source) Kids() [][]int          { return s.kids }
+func (s *source) Blob(id int) []byte     { return s.blobs[id-1] }
+func (s *source) IdOf(h common.Hash) int { return s.idOf[h] }
+func (s *source) Digest() string         { return s.digest }
+func (s *source) RawIds() []int {
+	raw := []int{}
+	for id, r := range s.raw {
+		if r {
+			raw = append(raw, id+1)
+		}
+	}
+	return raw
+}
